@@ -45,13 +45,14 @@ def run(chk):
         "useBad": "Y %s ;; %s" % (BAD, trans.case_line("T", 4, inp, 20)),
         "addA": "K %s | always ab 123456" % A,
         "addAbad": "K %s | always ab 9-10-z" % A,
+        "addAdisp": "K %s | display z 1346" % A,
         "backA": "Y %s ;; %s" % (A, trans.case_line("B", 4, [0x8001, 0x8003, 0x8009], 20)),
         "backB": "Y %s ;; %s" % (B, trans.case_line("B", 4, [0x8003, 0x8024, 0x8003, 0x8001], 20)),
         "hyph": "Y %s ;; %s" % (HY, trans.case_line("H", 0, [ord(c) for c in "hyphenation"], 20)),
         "free": "F",
         "getA": "G " + A,
     }
-    name_of = {"useA": A, "useB": B, "useApfx": APFX, "useBad": BAD, "addA": A, "addAbad": A, "backA": A, "backB": B, "hyph": HY, "getA": A}
+    name_of = {"useA": A, "useB": B, "useApfx": APFX, "useBad": BAD, "addA": A, "addAbad": A, "addAdisp": A, "backA": A, "backB": B, "hyph": HY, "getA": A}
     keys = list(ops)
     seqs = []
     maxlen = 3 if quick else 4
@@ -85,7 +86,10 @@ def run(chk):
         # without the exact-scratch hook (the library's real sizing: buffers are kept and reused between calls and must be
         # dropped completely by lou_free); every fourth sequence with it
         exact = 1 if si % 4 == 3 else 0
-        outs = common.run_stream(exe, ["e %d" % exact], [ops[k] for k in seq], env=dict(env, ASAN_OPTIONS="detect_leaks=1:exitcode=77"), timeout=300)
+        # every fifth sequence with table images created and grown without slack (hook): every allocation goes through the
+        # library's own growth path, which has to keep the cache entries pointing at the moved image
+        tight = -1 if si % 5 == 4 else 0
+        outs = common.run_stream(exe, ["e %d" % exact, "m %d" % tight], [ops[k] for k in seq], env=dict(env, ASAN_OPTIONS="detect_leaks=1:exitcode=77"), timeout=300)
         # model of the cache: which names are compiled, finalized, additions
         cached, final, added = set(), set(), []
         ptr = {}
@@ -101,12 +105,12 @@ def run(chk):
                 continue
             opens = int(o.split("opens=")[1].split()[0]) if "opens=" in o else None
             expect_compile = n not in cached
-            if k in ("addA", "addAbad"):
+            if k in ("addA", "addAbad", "addAdisp"):
                 ret = int(o.split()[1])
-                ok_expected = (k == "addA") and (A not in final)
+                ok_expected = (k in ("addA", "addAdisp")) and (A not in final)
                 cached.add(A)
                 if ok_expected:
-                    added.append("always ab 123456")
+                    added.append("always ab 123456" if k == "addA" else "display z 1346")
                 if ret != (1 if ok_expected else 0):
                     bad = ("add-result", "lou_compileString returned %d at step %d of %s, expected %d" % (ret, i, seq, 1 if ok_expected else 0))
                     break
@@ -148,8 +152,8 @@ def run(chk):
                 chk.sample(dict(sequence=seq), cap=3)
     shutil.rmtree(work, ignore_errors=True)
     chk.cov["exhaustive_up_to_length"] = maxlen
-    chk.cov["rule"] = ("all sequences up to length %d over 11 operations {use A, use B (multipass, both directions), use list A+shared (A's name is a prefix, shares a file with B), "
-                       "use a list that does not compile, add a valid / an invalid rule to A, back-translate with A, hyphenate, lou_getTable(A), "
+    chk.cov["rule"] = ("all sequences up to length %d over 12 operations {use A, use B (multipass, both directions), use list A+shared (A's name is a prefix, shares a file with B), "
+                       "use a list that does not compile, add a valid / an invalid / a display rule to A, back-translate with A, hyphenate, lou_getTable(A), "
                        "lou_free} plus random sequences of 5-40; observed: files opened per step (hook), pointer identity, lou_compileString "
                        "results, every result vs a fresh process with the same accepted additions, LeakSanitizer at exit; distinct = sequence" % maxlen)
     chk.cov["gen_status"] = gen
